@@ -202,6 +202,19 @@ func oracle(c *harness.C, k cell, o *out, rp replay) bool {
 	cls := mapClass(k)
 	bad := func(clause, sig, detail string) {
 		okAll = false
+		if syncSlice != "" {
+			// C07's full-stack slice: with exactly the expected honest nodes invoking and every
+			// message delivered, the synchronisations inside KeyGen / Sign complete - for every
+			// membership map (the synchroniser works on node identifiers)
+			if !strings.HasSuffix(sig, "-fails") && !strings.Contains(sig, "never-returned") {
+				return
+			}
+			if !strings.Contains(detail, "deadline") && !strings.Contains(detail, "synchron") && !strings.Contains(detail, "never returned") {
+				return
+			}
+			clause = "honest-runs-complete (synchronisation inside " + clause + ")"
+			sig = strings.ToLower(syncSlice) + "-session-synchronisation-" + sig
+		}
 		c.Violation(clause, sig+":"+cls, k.id()+": "+detail, rp)
 	}
 	nodeSess := map[string][]s.Rec{}
@@ -375,7 +388,17 @@ func cellCase(k cell, bound int, repeats int) harness.Case {
 	}}
 }
 
+var syncSlice = func() string {
+	if os.Getenv("VERIF_FAMILY") == "syncslice" {
+		return os.Getenv("VERIF_PROP")
+	}
+	return ""
+}()
+
 func gen(c *harness.C) []harness.Case {
+	if syncSlice != "" {
+		c.Property = syncSlice
+	}
 	c.Note("rule", "cells = membership map (identity / injective order-preserving and order-reversing with small and 16-bit boundary values / non-injective with replicas) x participating node set x operation x mode; each cell runs the full real stack with logging backend S under the default schedule and all <=d-deviation schedules; replica cells are repeated 16 times because Go map iteration order inside computeMembership cannot be owned; distinct_nontrivial = distinct (cell, class trace)")
 	if os.Getenv("VERIF_FAMILY") == "threads" {
 		return threadCases(c)
